@@ -543,8 +543,12 @@ class SuccessionDiagram:
             `True` if this succession diagram is a subgraph of the `other`
             succession diagram.
         """
-        # Every stub node is reachable through an expanded node and
-        # thus will be checked by the following code.
+        # Every stub node other than the root is reachable through an expanded
+        # node and thus will be checked by the following code. The root has to
+        # be checked explicitly, since it can be a stub itself.
+        if other.find_node(self.node_data(self.root())["space"]) is None:
+            return False
+
         for i in self.expanded_ids():
             other_i = other.find_node(self.node_data(i)["space"])
             if other_i is None:
